@@ -734,7 +734,7 @@ pub fn op_alphabet(full: bool, likely: bool) -> Vec<String> {
         o.push(format!("tf:{}", h(k)));
     }
     o.push("ctf".into());
-    let tlangs: &[&str] = if full { &["es-AR", "und", "es_latn-MACOS-macos", "e-s", "en-u-ca", "", "es-1996-Latn", "UND-latn"] } else { &["es-AR", "und", "e-s", "Und"] };
+    let tlangs: &[&str] = if full { &["es-AR", "und", "es_latn-MACOS-macos", "e-s", "en-u-ca", "", "es-1996-Latn", "UND-latn", "abcdefgh", "abcde-419", "abcdefghi"] } else { &["es-AR", "und", "e-s", "Und", "abcdefgh"] };
     for t in tlangs {
         o.push(format!("stl:{}", h(t)));
     }
